@@ -75,6 +75,28 @@ def profile_grammar(r, ledger):
     return stmts
 
 
+def scoping_family(r, ledger):
+    """A top-level command, a word that contains a command and a word that contains none; leading literals shift
+    the state numbers so that nested and top-level numbers coincide in some variants."""
+    lead = [gast.lit(x) for x in r.sample(['run', 'go', 'now', 'pls'], r.randint(0, 3))]
+    top = gast.seq(*(lead + [ledger_cmd(ledger, r, False)])) if lead else ledger_cmd(ledger, r, False)
+    w_cmd = ('word', (gast.lit('--a='), ledger_cmd(ledger, r, True)))
+    vals = r.sample(['foo', 'bar', 'qux', 'zed'], r.randint(2, 3))
+    w_plain = ('word', (gast.lit('--b='), gast.alt(*[gast.lit(v) for v in vals])))
+    stmts = [gast.call('cmd', top), gast.call('cmd', w_cmd), gast.call('cmd', gast.seq(w_plain, gast.lit('fin')))]
+    if r.random() < 0.5:
+        stmts.append(gast.call('cmd', gast.seq(gast.lit('also'), ('word', (gast.lit('--c='), gast.nt('ANYTHING'))))))
+    r.shuffle(stmts)
+    extra = [['--b=alpha', ''], ['--b=al'], ['--b=' + vals[0] + 'x', ''], ['--b=', ''], ['--b=' + vals[0], ''],
+             ['--a=zz', ''], ['--a=k'], ['--b=k'], ['--c=k', '']]
+    return stmts, extra
+
+
+def ledger_cmd(ledger, r, in_word):
+    i = len(ledger.outputs)
+    return gast.cmd(ledger.factory(r, i, in_word))
+
+
 def parse_log(path):
     per = {}
     cur = None
@@ -133,7 +155,7 @@ def required_invocations(M, ledger, ref, prefix):
     return need
 
 
-def check_grammar(stmts, ledger, r, budget, acc, origin):
+def check_grammar(stmts, ledger, r, budget, acc, origin, extra_words=None):
     text, _, _ = gast.print_grammar(stmts)
     rc, out, err = comp.compile_text(text, 'bash')
     if rc != 0:
@@ -155,6 +177,8 @@ def check_grammar(stmts, ledger, r, budget, acc, origin):
             w[i] = r.choice(['k*', '?' * len(w[i]), w[i][:1] + '*', '[a-z]*', w[i] + '*'])
             extra.append({'words': ['cmd'] + w, 'cword': len(w), 'wb': q['wb']})
     queries = (queries + extra)[:budget + 6]
+    for w in (extra_words or []):
+        queries.append({'words': ['cmd'] + w, 'cword': len(w), 'wb': ''})
     if not queries:
         return
     logdir = bashrun.make_workdir('c17log')
@@ -248,6 +272,10 @@ def run_job(job, acc):
     _, s, budget = job
     r = random.Random(s)
     ledger = ProbeLedger()
+    if s % 5 == 0:
+        stmts, extra = scoping_family(r, ledger)
+        check_grammar(stmts, ledger, r, max(6, budget // 3), acc, 'scoping family seed=%d' % s, extra)
+        return
     stmts = profile_grammar(r, ledger)
     check_grammar(stmts, ledger, r, budget, acc, 'seed=%d' % s)
 
